@@ -129,6 +129,22 @@ def r1_buffers(rule, root=None):
         rule.bad("jit-bulk|row-resize", "every output row must be resized to `n.max(T::SIMD_SIZE)` before evaluation", A.where(fn))
 
 
+def _vec_reinit(t, field, length, sentinel):
+    """after these statements every element of `field` is `sentinel` and its length is `length`: fill + resize
+    (either order), clear + resize, or a fresh vec![sentinel; length]"""
+    t = str(t)
+    fill = "%s.fill(%s)" % (field, sentinel)
+    rs = "%s.resize(%s,%s)" % (field, length, sentinel)
+    cl = "%s.clear()" % field
+    if fill in t and rs in t:
+        return True
+    if cl in t and rs in t and t.index(cl) < t.index(rs):
+        return True
+    if "%s=vec!(%s;%s)" % (field, sentinel, length) in t or "(%s=vec!(%s;%s))" % (field, sentinel, length) in t:
+        return True
+    return False
+
+
 def r2_resets(rule, root=None):
     # RegisterAllocator::reset touches all six fields
     fn = A.find_fn(ALLOC, "reset", self_ty="RegisterAllocator", root=root)
@@ -150,6 +166,8 @@ def r2_resets(rule, root=None):
         frs = want[f]
         if f == "spare_registers":
             ok = frs[0] in t and (frs[1] in t or frs[2] in t)
+        elif f == "allocations":
+            ok = all(x in t for x in frs) or _vec_reinit(t, "self.allocations", "size", "UNASSIGNED")
         else:
             ok = all(x in t for x in frs)
         if ok:
@@ -170,7 +188,7 @@ def r2_resets(rule, root=None):
         frs = want.get(f)
         if frs is None:
             rule.bad("ws-reset|%s|unknown" % f, "VmWorkspace has a field `%s` that reset() is not known to re-initialise" % f, A.where(DATA, st))
-        elif (f == "count" and any(x in t for x in frs)) or (f != "count" and all(x in t for x in frs)):
+        elif (f == "count" and any(x in t for x in frs)) or (f != "count" and all(x in t for x in frs)) or (f == "bind" and _vec_reinit(t, "self.bind", "tape_len", "u32::MAX")):
             rule.ok("VmWorkspace::reset re-initialises `%s`" % f, file=DATA, line=fn["ln"])
         else:
             rule.bad("ws-reset|%s" % f, "VmWorkspace::reset does not fully re-initialise `%s`" % f, A.where(fn))
@@ -326,9 +344,15 @@ def r4_pointer_lists(rule, root=None):
     for vec in ("input_ptrs", "output_ptrs"):
         ext = find_call(calls, "self." + vec, "extend")
         clr = find_call(calls, "self." + vec, "clear")
-        if len(ext) != 3:
-            rule.lost("three extends of %s in JitBulkEval::eval (found %d)" % (vec, len(ext)))
+        if len(ext) < 2:
+            rule.lost("the refills of %s in JitBulkEval::eval (found %d)" % (vec, len(ext)))
             continue
+        # every native call sees a list that was refilled on its path (a refill shared by both branches counts for both)
+        native_ = [c for c in calls if c["unsafe"] and "fn_bulk" in c["method"]]
+        for nc in native_:
+            seen_ = [x for x in ext if x["i"] < nc["i"] and x["conds"] == nc["conds"][: len(x["conds"])]]
+            if not seen_:
+                rule.bad("ptrs|%s|unfilled" % vec, "a native call is reached without `%s` having been refilled on that path" % vec, A.where(fn, nc["node"]))
         for e in ext:
             prior = [c for c in clr if c["i"] < e["i"] and c["conds"] == e["conds"][: len(c["conds"])]]
             # the closest clear must not be followed by another extend of the same vec
@@ -459,7 +483,7 @@ def run(ctx):
     ctx.guarded(r, r_trace_copy)
     r = ctx.rule("R3", "recycled executable memory is overwritten from offset 0 and grown before a write past capacity", 4)
     ctx.guarded(r, r3_mmap)
-    r = ctx.rule("R4", "pointer lists are cleared before each refill; scratch lanes refilled", 7)
+    r = ctx.rule("R4", "pointer lists are cleared before each refill; scratch lanes refilled", 5)
     ctx.guarded(r, r4_pointer_lists)
     r = ctx.rule("R5", "render handles: cache keyed by trace, tape caches per shape, recycle order child -> tapes -> shape", 15)
     ctx.guarded(r, RH.r_cache_key)
